@@ -34,11 +34,17 @@ def run(pid, t, replay=None):
                 extra.append(dict(s, spend_from_key=True))
             if s["n"] and rnd.random() < (0.3 if t == "quick" else 1.0):
                 extra.append(dict(s, ticket_at=rnd.randrange(s["n"])))
+            # the key touched only through zero-amount slips; several keys in the list, in different orders
+            if s["n"] and any(s["keep"]) and rnd.random() < (0.3 if t == "quick" else 1.0):
+                extra.append(dict(s, zero=True, spend_from_key=rnd.random() < 0.5))
+            if s["n"] and any(s["keep"]) and rnd.random() < (0.4 if t == "quick" else 1.0):
+                extra.append(dict(s, keylist=rnd.randint(1, 5), spend_from_key=rnd.random() < 0.3))
         # random patterns for larger blocks
         for _ in range(300 if t == "quick" else 5000):
             n = rnd.randint(10, 64)
             p = rnd.choice([0.0, 0.05, 0.2, 0.5, 0.9])
-            extra.append(dict(n=n, keep=[rnd.random() < p for _ in range(n)], spend_from_key=rnd.random() < 0.3))
+            extra.append(dict(n=n, keep=[rnd.random() < p for _ in range(n)], spend_from_key=rnd.random() < 0.3,
+                              keylist=rnd.choice([0, 0, 1, 2, 3, 4, 5]), zero=rnd.random() < 0.2))
         scns = scns + extra
     spath = os.path.join(wd, "scenarios.jsonl")
     with open(spath, "w") as f:
@@ -79,8 +85,8 @@ def run(pid, t, replay=None):
     nontrivial = len({json.dumps(s, sort_keys=True) for s in scns if s["n"] >= 2 and not all(s["keep"])})
     coverage = dict(states=max(dist, 1), transitions=max(gen_n, 1), traces_validated_against_impl=len(scns), evaluations=consumed,
                     distinct_nontrivial=nontrivial,
-                    rule="cases = every (n, keep pattern) with n <= %d emitted by TLC (exhaustive) + variants (key as spender, a golden "
-                         "ticket among the omitted) + seeded random patterns for 10..64 transactions; non-trivial = distinct case "
+                    rule="cases = every (n, keep pattern) with n <= %d emitted by TLC (exhaustive) + variants (key as spender, key touched only by zero-amount slips, "
+                         "several listed keys in six orders incl. unsorted and with duplicates, a golden ticket among the omitted) + seeded random patterns for 10..64 transactions; non-trivial = distinct case "
                          "with at least two transactions and at least one omitted" % maxn,
                     samples=[scns[5], scns[-1]], exhaustive=True, exhaustive_scope="n <= %d, all 2^n key patterns" % maxn,
                     checker_cmd="tlc MC_LiteBlock.tla; harness/bin/lite (real generate_lite_block + wire round trip + real merkle recomputation); tlc LiteBlockTrace.tla",
